@@ -43,6 +43,10 @@ def build_rust():
     """Rebuild sy's binaries and the harness from /repo's current working tree (hooks on)."""
     with Lock("cargo"):
         shutil.copyfile(os.path.join(REPO, "Cargo.lock"), os.path.join(VERIF, "harness", "Cargo.lock"))
+        if REPO != "/repo":      # a relocated copy of /verif checking a scratch worktree (tools/iso_seed.sh): point the harness at it
+            ct = os.path.join(VERIF, "harness", "Cargo.toml"); t = open(ct).read()
+            t2 = re.sub(r'sy = \{ path = "[^"]*" \}', 'sy = { path = "%s" }' % REPO, t)
+            if t2 != t: open(ct, "w").write(t2)
         r1 = sh(["cargo", "build", "--offline", "--bins", "--manifest-path", os.path.join(REPO, "Cargo.toml")], env=cargo_env())
         if r1.returncode != 0:
             return False, r1.stdout[-4000:]
